@@ -173,6 +173,12 @@ def worker(idx, nworkers, tier, seed, extra):
     n_random = {"quick": 9000, "thorough": 300000, "miri": 0}[tier]
     w = Wsx()
     try:
+        # process history: three of four executors first see a client session under another announced modulus
+        # (its result is not judged); state remembered from that first group would disturb the logins that follow
+        first = {1: 2, 2: 3, 3: 257}.get(idx % 4)
+        if first:
+            w.call("cli_new", into=9, u="First", p="session", g=7, N=M.to_le(first), B=M.to_le(1), salt=bytes(32))
+            mon.count("executors_started_with_another_modulus")
         # corpus classes (sharded)
         corpus = load_corpus()
         for i, e in enumerate(corpus):
